@@ -170,7 +170,9 @@ inline void run_man(const ManProg &p) {
 struct Sleeper { uint8_t dur; uint8_t id; uint8_t kind; uint8_t busy = 0; uint8_t recursive = 0; };   // recursive: after it woke the sleeper serves the scheduler itself with a nested start(sleep 5ms) (documented: start may be used recursively)
 //   // busy: ms of blocking work the sleeper does right after it woke (occupies the thread that resumed it)
 //    // kind 0 coroutine sleeper, 1 blocking thread sleeper (modes 1/2), 2 canceller
-struct RunProg { uint8_t mode; uint8_t pool_threads; std::vector<Sleeper> sl; uint8_t interval; bool wait_first; bool destroy_pending; };
+struct RunProg { uint8_t mode; uint8_t pool_threads; std::vector<Sleeper> sl; uint8_t interval; bool wait_first; bool destroy_pending; uint8_t start_form = 0; bool root_value = false; };
+// start_form (modes 1,2): 0 constructor taking the thread / pool, 1 default-constructed scheduler then start(thread|pool), 2 (mode 1) start_thread() - a detached thread
+// root_value (mode 0): the awaitable handed to start() carries a value, which start() must return
 
 inline RunProg decode_run(hz::Reader &r) {
     RunProg p;
@@ -189,6 +191,8 @@ inline RunProg decode_run(hz::Reader &r) {
     // a sleeper that keeps the thread which woke it busy: the others must still be woken on time as long as a worker is idle
     unsigned nb = r.mod(3);
     for (unsigned k = 0; k < nb && k < p.sl.size(); k++) { Sleeper &x = p.sl[r.mod((unsigned)p.sl.size())]; if (x.kind == 0) x.busy = (uint8_t)(15 * (1 + r.mod(2))); }
+    { unsigned e = r.mod(6); p.start_form = (uint8_t)(e < 3 ? 0 : e == 3 ? 1 : e == 4 ? 2 : 1); if (p.mode == 2 && p.start_form == 2) p.start_form = 1; if (p.mode == 0 || p.mode == 3) p.start_form = 0;
+      p.root_value = p.mode == 0 && e >= 3; }
     // (a recursive start() from inside a coroutine is NOT generated: two worker coroutines on one thread never find the ready
     //  queue empty, so neither blocks - they poll until the deadline passes in REAL time, which never happens under virtual time)
     return p;
@@ -197,6 +201,8 @@ inline std::string describe_run(const RunProg &p) {
     static const char *modes[] = {"single-thread start(awaitable)", "thread mode", "thread-pool mode", "two workers (thread mode + the owner serving start(awaitable))"};
     static const char *kinds[] = {"coroutine sleeper", "blocking-thread sleeper", "canceller"};
     hz::Desc d; d << modes[p.mode];
+    if (p.start_form == 1) d << " [default-constructed, then start(thread|pool)]"; else if (p.start_form == 2) d << " [start_thread(): detached thread]";
+    if (p.root_value) d << " [start() of an awaitable carrying a value]";
     if (p.mode == 2) d << "(" << (unsigned)p.pool_threads << " workers)";
     d << ":";
     for (auto &s : p.sl) { d << " [" << kinds[s.kind] << " " << (unsigned)s.dur << "ms id" << (unsigned)s.id; if (s.busy) d << ", then busy " << (unsigned)s.busy << "ms"; if (s.recursive) d << ", then a nested start(sleep 5ms)"; d << "]"; }
@@ -273,6 +279,7 @@ struct RunCtx {
         } catch (const cocls::await_canceled_exception &) { code = -1; }
         interval_code = code;
     }
+    cocls::async<int> root_value(std::stop_source *src) { co_await root(src); co_return 4711; }
     // everything the scenario runs inside the scheduler
     cocls::async<void> root(std::stop_source *src) {
         std::vector<std::unique_ptr<cocls::future<void>>> f;
@@ -347,14 +354,23 @@ inline void run_run(const RunProg &p) {
     std::stop_source src;
     if (p.mode == 0) {
         cocls::scheduler s; c.s = &s;
-        auto root = c.root(&src);
-        s.start(root);
+        if (p.root_value) {
+            // start() returns the value of the await operation
+            cocls::future<int> root = c.root_value(&src);
+            int v = s.start(root);
+            HZ_CHECK(v == 4711, "start(awaitable) returned %d, the awaited operation completed with 4711", v);
+        } else {
+            auto root = c.root(&src);
+            s.start(root);
+        }
         c.check("single-thread mode");
     } else {
         std::unique_ptr<cocls::thread_pool> pool;
         std::thread thr;
         std::unique_ptr<cocls::scheduler> s;
-        if (p.mode == 2) { pool.reset(new cocls::thread_pool(p.pool_threads)); s.reset(new cocls::scheduler(*pool)); }
+        if (p.mode == 2) { pool.reset(new cocls::thread_pool(p.pool_threads)); if (p.start_form) { s.reset(new cocls::scheduler()); s->start(*pool); } else s.reset(new cocls::scheduler(*pool)); }
+        else if (p.start_form == 2) { s.reset(new cocls::scheduler()); s->start_thread(); }
+        else if (p.start_form == 1) { s.reset(new cocls::scheduler()); s->start(thr); }
         else s.reset(new cocls::scheduler(thr));
         c.s = s.get();
         std::vector<std::thread> bl;
